@@ -205,6 +205,17 @@ class Column:
         """
         raise NotImplementedError
 
+    @staticmethod
+    def _from_raw_name(raw_name: str) -> "Column":
+        """
+        Build a 'Column' from a name that is already normalized, like raw_name of another Column.
+        Normalizing it a second time would lower-case a quoted identifier, since its quote chars are already gone.
+        """
+        col = Column(raw_name)
+        col.raw_name = raw_name
+        col.source_columns = [(raw_name, None)]
+        return col
+
     def to_source_columns(self, alias_mapping: dict[str, Union[Path, Table, SubQuery]]):
         """
         Best guess for source table given all the possible table/subquery and their alias.
@@ -213,7 +224,7 @@ class Column:
         def _to_src_col(
             name: str, parent: Optional[Union[Path, Table, SubQuery]] = None
         ) -> Column:
-            col = Column(name)
+            col = Column._from_raw_name(name)
             if parent:
                 col.parent = parent
             return col
